@@ -652,6 +652,18 @@ impl Node {
         }
         debug!("Payment is valid for record {pretty_key}");
 
+        // verify our own quote(s) were issued for the address being stored,
+        // otherwise a proof bought for one address could be reused for any other data
+        let expected_content = address.as_xorname().unwrap_or_default();
+        if payment
+            .quotes_by_peer(&self_peer_id)
+            .iter()
+            .any(|quote| quote.content != expected_content)
+        {
+            warn!("Payment quote is not for the address of record {pretty_key}");
+            return Err(Error::InvalidQuoteContent);
+        }
+
         // verify quote expiration
         if payment.has_expired() {
             warn!("Payment quote has expired for record {pretty_key}");
